@@ -10,7 +10,7 @@ import itertools
 import json
 
 from ..api import J, call
-from .. import jwsprod as P
+from .. import gen, jwsprod as P
 from ..jwsgen import JWS_ALGS, alg_name
 from refjose.prim import b64u_dec
 
@@ -271,6 +271,70 @@ def scale_cases(ctx, rng):
         ctx.violation("scale:header-differs", "100 kB kid / 30000-character cty came back differently", {"scale": "long header values"})
 
 
+def headers_equal_as_python_values(ctx, rng):
+    """a run of serializations whose headers differ only in a way Python's == and hash() do not see (an extension member that is 1, true, 1.0; 0, false, -0.0;
+    member order): each token carries, signs and gives back exactly the header of its own call - compared as JSON texts, not as Python values"""
+    j = J.load()
+    from joserfc.registry import HeaderParameter
+    payload = b"c03 equal headers"
+    hs = gen.new_oct(256)
+    key = j.key(hs)
+    values = [1, True, 1.0, 0, False, -0.0, 0.0, 2, 2.0, "1", [1], [True], [1.0], {"a": 1}, {"a": True}, None, 10 ** 20, 1e20]
+    regs = [("non-strict", lambda: j.jws.JWSRegistry(algorithms=["HS256"], strict_check_header=False)),
+            ("non-strict-shared", None),
+            ("registered-as-jwk-free-form", lambda: j.jws.JWSRegistry(algorithms=["HS256"], header_registry={"rev": HeaderParameter("rev", lambda v: None, False)}))]
+    shared = j.jws.JWSRegistry(algorithms=["HS256"], strict_check_header=False)
+
+    def canon(h):
+        return json.dumps(h, sort_keys=True, separators=(",", ":"))
+    for rname, mk in regs:
+        for rounds in range(2):
+            order = list(values)
+            rng.shuffle(order)
+            for v in order:
+                for form in ("compact", "flat", "general", "flat-unprotected"):
+                    ctx.ev()
+                    reg = shared if mk is None else mk()
+                    hdr = {"alg": "HS256", "rev": copy.deepcopy(v)} if rounds == 0 else {"rev": copy.deepcopy(v), "alg": "HS256"}
+                    if form == "compact":
+                        o = call(j.jws.serialize_compact, copy.deepcopy(hdr), payload, key, registry=reg)
+                    elif form == "flat":
+                        o = call(j.jws.serialize_json, {"protected": copy.deepcopy(hdr)}, payload, key, registry=reg)
+                    elif form == "general":
+                        o = call(j.jws.serialize_json, [{"protected": copy.deepcopy(hdr)}], payload, key, registry=reg)
+                    else:
+                        o = call(j.jws.serialize_json, {"protected": {"alg": "HS256"}, "header": {"rev": copy.deepcopy(v)}}, payload, key, registry=reg)
+                    ctx.count("produced")
+                    ctx.count("equal_header_cases")
+                    ctx.nontrivial(("equal-headers", rname, repr(v), form, rounds))
+                    ctx.cell("equal-headers", rname, form)
+                    case = {"equal_headers": True, "registry": rname, "value": repr(v), "form": form}
+                    if not o.ok:
+                        ctx.open("extension-member-value-refused")
+                        continue
+                    tok = o.value
+                    if form == "compact":
+                        got = json.loads(b64u_dec(tok.split(".")[0]))
+                    elif form == "general":
+                        got = json.loads(b64u_dec(tok["signatures"][0]["protected"]))
+                    elif form == "flat":
+                        got = json.loads(b64u_dec(tok["protected"]))
+                    else:
+                        got = {"alg": "HS256", **(tok.get("header") or {})}
+                    if canon(got) != canon({"alg": "HS256", "rev": v}):
+                        ctx.violation("header-of-another-call-signed", f"{form} serialization with header member rev={v!r} ({type(v).__name__}) under a {rname} registry carries "
+                                      f"{canon(got)} - the header of an earlier call that is equal to it as a Python value only", {**case, "token": tok})
+                        continue
+                    d = call(j.jws.deserialize_compact if form == "compact" else j.jws.deserialize_json, copy.deepcopy(tok), key, registry=reg)
+                    ctx.count("verified")
+                    if not d.ok:
+                        ctx.violation(f"roundtrip-fails:{d.key}", f"token with header member rev={v!r} does not verify: {d.exc!r}", {**case, "token": tok})
+                        continue
+                    back = d.value.headers() if form == "compact" else d.value.members[0].headers() if hasattr(d.value, "members") else d.value.member.headers()
+                    if canon(back) != canon({"alg": "HS256", "rev": v}):
+                        ctx.violation("header-differs-after-verification", f"verified header {canon(back)}, signed with rev={v!r}", {**case, "token": tok})
+
+
 def run_shard(ctx):
     J.load()
     rng = ctx.rng
@@ -278,6 +342,8 @@ def run_shard(ctx):
         scale_cases(ctx, rng)
     if ctx.shard == 3:
         detach_collisions(ctx, rng)
+    if ctx.shard == 4:
+        headers_equal_as_python_values(ctx, rng)
     forced = forced_cells(ctx.tier)
     for idx, kw in enumerate(forced):
         if idx % ctx.nshards != ctx.shard:
@@ -304,6 +370,8 @@ REQUIRE = [("produced", 200, "tokens produced"), ("verified", 200, "tokens verif
 
 def replay(ctx, case):
     J.load()
+    if case.get("equal_headers"):
+        return headers_equal_as_python_values(ctx, ctx.rng)
     d = case["cell"]
     c = P.Cell(ctx.rng, alg=d["alg"], form=d["form"], b64=d["b64"], placement=d["placement"], key_given=d["key_given"], sign_rep=d["sign_rep"],
                verify_rep=d["verify_rep"], payload=d["payload"])
